@@ -29,6 +29,10 @@ pub struct CloudLayout {
     pub publish_index: bool,
     /// Maximum payload bytes per automatically appended data packet.
     pub tail_chunk: u16,
+    /// Every n-th data packet carries the "compressor restart" flag (bit 0 of the flags byte): legal, and without
+    /// meaning for the bit-packing codec, whose streams simply continue. 0 = never.
+    #[serde(default)]
+    pub restart_every: u8,
 }
 
 #[derive(Clone, Debug, Default, PartialEq, Serialize, Deserialize)]
@@ -772,12 +776,15 @@ fn cv_section(c: &Cloud, lay: &CloudLayout, start: u64, notes: &mut Vec<String>)
     let mut first_index: Option<u64> = None;
     let count = c.proto.len();
     let max_payload = 65536 - 6 - 2 * count;
+    let mut data_packets = 0usize;
+    let restart_every = lay.restart_every as usize;
     let mut emit_data = |sec: &mut Vec<u8>, take: Vec<usize>, streams: &Vec<Vec<u8>>, pos: &mut Vec<usize>| {
         let total: usize = take.iter().sum();
         let mut plen = 6 + 2 * count + total;
         plen += (4 - plen % 4) % 4;
         sec.push(1);
-        sec.push(0);
+        data_packets += 1;
+        sec.push(if restart_every > 0 && data_packets % restart_every == 0 { 1 } else { 0 });
         sec.extend_from_slice(&((plen - 1) as u16).to_le_bytes());
         sec.extend_from_slice(&(count as u16).to_le_bytes());
         for t in &take {
